@@ -708,6 +708,8 @@ func checkC03(w *World, r *Report, tier string) propMeta {
 	c03R3(w, r)
 	c03R4(w, r)
 	c03R6(w, r, "C03.R6")
+	c03R7(w, r, "C03.R7")
+	c02R1(w, r) // every delivered row is materializeRow of the very bytes scanned in that iteration — never a (shallow) copy of another row
 	c03R5(w, r)
 	return propMeta{
 		explanation: "Independence of returned rows: (R1) materializeRow parses a copying string(rowBytes) conversion of its argument, and (C02.R1) every delivered row is materializeRow of the scanned bytes; (R2) package unsafe is referenced only inside unsafeString, whose callers are exactly indexRow and matchRowBytes, and matchRowBytes/match return only a bool; (R3) typestate on pooled scan buffers: after putScanBuffer(x) (or a direct call of a release closure) no instruction reachable in the function uses x; in processDataBlock the row-data release is deferred before the batch flush is deferred (so the flush runs first) and is never called directly; (R4) readPooledBlockRowData is called only from processDataBlock (the merge path uses the allocating reader) and parseFilterSection decodes filters with ReadFrom into fresh objects.",
@@ -973,6 +975,19 @@ func c03R4(w *World, r *Report) {
 			}
 		}
 		r.check(!bad, rule, "region(Merge):no-pooled-row-data", w.pos(m.Pos()), "merge reads row data into plainly allocated buffers", "the merge path reads row data into pooled buffers that its entry sets may alias")
+	}
+	// decoding into a caller-supplied buffer is the pooled reader's privilege:
+	// everyone else decodes into fresh memory (dst == nil), so rows that entry
+	// sets may keep views of are never overwritten by the next block's decode
+	for _, s := range w.callSites("decodeBlockRowDataInto") {
+		host := baseName(w.name(s.Fn))
+		dst := callOf(s.Instr).Args[0]
+		switch host {
+		case "readPooledBlockRowData":
+			r.ok(rule, "decodeInto@"+host, w.instrPos(s.Instr), "the pooled reader decodes into its pooled buffer (released by its caller, C03.R3)")
+		default:
+			r.check(isNilConst(dst), rule, "decodeInto@"+host, w.instrPos(s.Instr), "decodes into fresh memory (dst = nil)", host+" decodes row data into a caller-supplied buffer ("+w.path(dst)+"): a buffer reused from block to block is overwritten while entry sets built from the previous block may still hold views of it (custom tokenizers return substrings of their input), so the rebuilt filters lose entries")
+		}
 	}
 	if fn := fnOrUndecided(w, r, rule, "parseFilterSection"); fn != nil {
 		okc, n := true, 0
@@ -1323,5 +1338,64 @@ func c03R6(w *World, r *Report, rule string) {
 	}
 	if n == 0 {
 		r.undecided(rule, "sites", "-", "no deferred putScanBuffer found (ReadDataBlockBloomFilters' expected)")
+	}
+}
+
+// c03R7: a field never keeps a buffer that went back to the pool.
+func c03R7(w *World, r *Report, rule string) {
+	r.rule(rule, "no dangling pooled buffer in a field: after putScanBuffer(x.f) every path to a return overwrites x.f — a field still holding a released buffer is released again (one array handed to two scans) or read after reuse", 2)
+	n := 0
+	for _, fn := range w.Funcs {
+		if !w.ours(fn) || fn.Blocks == nil {
+			continue
+		}
+		sites := w.callSitesIn(fn, "putScanBuffer")
+		fieldSites := 0
+		for _, in := range sites {
+			if _, isDefer := in.(*ssa.Defer); isDefer {
+				continue
+			}
+			if _, _, _, ok := w.structFieldOf(callOf(in).Args[0]); ok {
+				fieldSites++
+			}
+		}
+		if fieldSites == 0 {
+			continue
+		}
+		cl := &Classifier{
+			Call: func(site ssa.Instruction, c *ssa.CallCommon) *Event {
+				if _, isCall := site.(*ssa.Call); !isCall || !w.isCallTo(c, "putScanBuffer") {
+					return nil
+				}
+				if _, _, _, ok := w.structFieldOf(c.Args[0]); ok {
+					return &Event{May: []string{"dangling:" + w.path(c.Args[0])}}
+				}
+				return nil
+			},
+			Instr: func(in ssa.Instruction) *Event {
+				if st, ok := in.(*ssa.Store); ok {
+					if _, _, _, ok := w.structFieldOf(st.Addr); ok {
+						return (&Event{}).kill("dangling:" + deref(w.path(st.Addr)))
+					}
+				}
+				return nil
+			},
+		}
+		fl := newFlow(w, fn, cl)
+		for i, ret := range fl.Returns() {
+			f := fl.Before(ret)
+			var left []string
+			for l := range f.may {
+				if strings.HasPrefix(l, "dangling:") {
+					left = append(left, strings.TrimPrefix(l, "dangling:"))
+				}
+			}
+			sort.Strings(left)
+			n++
+			r.check(len(left) == 0, rule, fmt.Sprintf("%s:return#%d", baseName(w.name(fn)), i), w.instrPos(ret), "released field overwritten before return", fmt.Sprintf("%s can return with %s still holding a buffer it already gave back to the pool: a later release hands the same array to the pool twice, so two block scans share one buffer and one overwrites the other's verified row data", baseName(w.name(fn)), strings.Join(left, ", ")))
+		}
+	}
+	if n == 0 {
+		r.undecided(rule, "sites", "-", "no release of a field-held pooled buffer found (blockFilterCursor.release/readChunkFrom expected)")
 	}
 }
